@@ -155,6 +155,39 @@ Proof.
   rewrite round_list_exit by exact H. destruct x as [|a x]; cbn; [|reflexivity].
   rewrite IH. destruct (forallb _ t); reflexivity.
 Qed.
+(** ** 3. histories of Round requests in one process (scalar, Vector and Matrix requests are tables): every answer is the answer its own request
+    gets from the pure function, whatever was requested before or after it (NaN, infinite, zero entries and other digits included: the statements are
+    over any number type), and a history never exits when every request has digits <= 7 *)
+Lemma round_run_iff (qs : list (Z * list (list T))) outs :
+  round_run Ops qs = Ok outs <-> Forall2 (fun q a => round_table Ops (snd q) (fst q) = Ok a) qs outs.
+Proof.
+  revert outs. induction qs as [|q t IH]; intros outs; cbn.
+  - split; intros H; [injection H as <-; constructor|inversion H; reflexivity].
+  - split.
+    + intros H. destruct (round_table Ops (snd q) (fst q)) as [a| | |] eqn:E; cbn in H; try discriminate.
+      destruct (round_run Ops t) as [b| | |] eqn:E2; cbn in H; try discriminate.
+      injection H as <-. constructor; [exact E|apply IH; reflexivity].
+    + intros H. inversion H as [|q0 a l0 b Hq Ht]; subst. rewrite Hq. cbn. apply IH in Ht. rewrite Ht. reflexivity.
+Qed.
+
+Lemma round_run_total (qs : list (Z * list (list T))) : Forall (fun q => (fst q <= 7)%Z) qs -> exists outs, round_run Ops qs = Ok outs.
+Proof.
+  induction 1 as [|q t Hq _ [b IH]]; cbn; [eexists; reflexivity|].
+  destruct (round_table_total (snd q) (fst q) Hq) as [a ->]. rewrite IH. cbn. eexists; reflexivity.
+Qed.
+
+Lemma Forall2_len {A B} (P : A -> B -> Prop) l l' : Forall2 P l l' -> length l = length l'.
+Proof. induction 1; cbn; congruence. Qed.
+
+Theorem round_history_independent (pre post : list (Z * list (list T))) q outs :
+  round_run Ops (pre ++ q :: post) = Ok outs ->
+  length outs = length (pre ++ q :: post) /\ round_table Ops (snd q) (fst q) = Ok (nth (length pre) outs []).
+Proof.
+  intros H. apply round_run_iff in H. split; [symmetry; exact (Forall2_len _ _ _ H)|].
+  apply Forall2_app_inv_l in H. destruct H as (o1 & o2 & H1 & H2 & ->).
+  inversion H2 as [|q0 a l0 b Hq Ht]; subst.
+  rewrite (Forall2_len _ _ _ H1). rewrite app_nth2 by apply Nat.le_refl. rewrite Nat.sub_diag. exact Hq.
+Qed.
 End Table.
 
 (** ** the clauses of Round lifted to the containers (over R) *)
